@@ -57,6 +57,15 @@ func c14Cases(tier string, seed int64) []core.Case {
 			}})
 		}
 	}
+	// the client proposes more than the server accepts: every size the client works with comes out of the negotiation
+	for _, sm := range []uint32{1024, 300} {
+		sm := sm
+		cases = append(cases, core.Case{ID: fmt.Sprintf("rw/client-asks-8192/server-msize=%d", sm), Run: func(ctx *core.Ctx) core.Result {
+			serverMsize = sm
+			defer func() { serverMsize = 0 }()
+			return c14Run(ctx, 8192, sm == 1024, false)
+		}})
+	}
 	cases = append(cases, core.Case{ID: "manyfiles", Run: c14Many})
 	for _, msize := range []uint32{1024, 8192} {
 		msize := msize
